@@ -1376,7 +1376,8 @@ func Run(r *mc.Run) {
 		"inside one batch a key has either merges or sets/deletes, never both (adapter-defined, unused by upsidedown)",
 		"Seek is called once, directly after the iterator is created; Seek before the range start is expected to clamp to the start",
 		"moss is used in memory (no lower-level store) with the adapter's default collection options",
-		"the metrics wrapper is searched one level less deep than the stores it wraps (it only delegates)",
+		"the metrics wrapper only delegates: it is searched one level less deep than the stores it wraps in the deep search and left out of wide2",
+		"moss merges segments in a background goroutine the check does not control: which layout a reader meets can depend on timing, so the number of moss:seek-onto-deleted / moss:dup-key-in-batch instances may differ by a few between runs (the set of classes did not in any run)",
 		"merge operator: decimal counter (FullMerge and PartialMerge both supported)",
 		"batches are built through NewBatch, and through NewBatchEx with keys/values placed in the returned buffer as upsidedown does (all searches for moss, where it is a separate code path; thorough wide1 for the others)",
 		"supplementary index-level pass: upsidedown over moss is compared with upsidedown over gtreap (same history, same queries), not with the reference query evaluator — query semantics are C02's subject")
